@@ -95,7 +95,7 @@ fn memory_view(snap: &str) -> String {
 fn collect(world: &World) -> Result<Outcome, String> {
     // What the property is about: balances, which appointments are held by whom in which version,
     // which are responded to (and with what), what was submitted to the node, and that memory and
-    // tables agree. Height stamps (start_block, in-mempool-since) are read at slightly different
+    // tables agree, the block a penalty is confirmed in. Height stamps (start_block, in-mempool-since) are read at slightly different
     // moments than the operation's linearisation point and are deliberately not compared.
     let r = catch_unwind(AssertUnwindSafe(|| {
         let db = world.db_view();
@@ -115,7 +115,9 @@ fn collect(world: &World) -> Result<Outcome, String> {
         s.push_str(&format!("A{}:{}:{}:{};", &k[..10], crate::tower::fnv(&a.blob), a.to_self_delay, &a.user[..8]));
     }
     for (k, t) in &db.trackers {
-        s.push_str(&format!("T{}:{}:{}:{};", &k[..10], tx_label(&t.dispute), tx_label(&t.penalty), t.confirmed));
+        // the block a confirmed penalty sits in does not depend on the order of the operations (an in-mempool-since does)
+        let at = if t.confirmed { format!("@{}", t.height) } else { String::new() };
+        s.push_str(&format!("T{}:{}:{}:{}{at};", &k[..10], tx_label(&t.dispute), tx_label(&t.penalty), t.confirmed));
     }
     if db.fk_violations > 0 {
         s.push_str("DANGLING;");
@@ -392,6 +394,22 @@ pub fn scenarios(tier: Tier) -> Vec<Scenario> {
                     Ev::External(TxName::P(1)),
                     Ev::MineP(MineSel::Mempool),
                     Ev::Reorg { depth: 1, how: Replacement::Unconfirm },
+                ],
+                ops: vec![SOp::Poll, SOp::Add { user: 1, disp: 1, blob: Blob::Valid }],
+            },
+            Scenario {
+                // the penalty sits in a block that stays; the one above it is being replaced while the late appointment is
+                // handed to the Responder: the height recorded for the confirmation is that block's, whatever the index
+                // looks like half-way through the reorg
+                name: "reorg-above-the-penalty-block-vs-triggered-add".into(),
+                cfg,
+                seed: vec![
+                    Ev::Register(1),
+                    Ev::MineP(MineSel::Txs(vec![TxName::D(1)])),
+                    Ev::External(TxName::P(1)),
+                    Ev::MineP(MineSel::Mempool),
+                    Ev::MineP(MineSel::Empty),
+                    Ev::Reorg { depth: 1, how: Replacement::Same },
                 ],
                 ops: vec![SOp::Poll, SOp::Add { user: 1, disp: 1, blob: Blob::Valid }],
             },
